@@ -56,6 +56,7 @@ type RowOut struct {
 	Untrusted bool               `json:"untrusted"`
 	Masks     map[string][][]int `json:"masks"` // version -> derived paths (-1 = every element)
 	Sites     []string           `json:"sites"`
+	SiteMake  map[string]string  `json:"site_make"` // collection label -> position of the make call that allocates it
 }
 
 func main() {
@@ -322,8 +323,9 @@ func (g *Gen) doRoot(name string, body bool) *RowOut {
 			}
 		}
 		siteSet := map[string]bool{}
+		row.SiteMake = map[string]string{}
 		for _, ns := range row.Dec.ByVer {
-			sitesOf(ns, siteSet)
+			sitesOf(ns, siteSet, row.SiteMake)
 		}
 		for s := range siteSet {
 			row.Sites = append(row.Sites, s)
@@ -364,11 +366,14 @@ func masksOf(ns []*Node, pre []int) [][]int {
 	return out
 }
 
-func sitesOf(ns []*Node, set map[string]bool) {
+func sitesOf(ns []*Node, set map[string]bool, mk map[string]string) {
 	for _, n := range ns {
 		if n.Kind == "arr" {
 			set[n.Label] = true
-			sitesOf(n.Elem, set)
+			if n.MakePos != "" {
+				mk[n.Label] = n.MakePos
+			}
+			sitesOf(n.Elem, set, mk)
 		}
 	}
 }
